@@ -1,10 +1,18 @@
 //! Ground truth for forged table matrices (C04/C11 oracle), written against the documented table
 //! layouts and the operations' defining relations over the configured extension field
 //! (multiplication through `p3_field`'s own extension type, not the AIR's hand-expanded formulas).
-//! Only primitive tables (Const / Public / ALU without Horner scheduling) are decoded.
+//! Primitive tables only (Const / Public / ALU). ALU rows are decoded from the ALU table's
+//! *preprocessed matrix* (per-row selectors and witness indices, as the verifier's key commits to
+//! them), so rows re-ordered by the Horner lane schedule and packed Horner rows are covered:
+//! a packed row of arity k carries step 0's (a, c) in lane 0, steps 1..k-1 in the extra columns,
+//! one shared `b`, and only the final `out`; the compressed intermediates and `b^2` are free
+//! columns of the prover and take no part in the ground truth. Each decoded Horner step is mapped
+//! back to the circuit's HornerAcc op (same order; checked by witness indices), whose accumulator
+//! *slot* supplies the first accumulator of a chain — not whatever the previous row holds.
 
 use std::collections::BTreeMap;
 
+use p3_circuit::ops::AluOpKind;
 use p3_circuit::{Circuit, Op};
 use p3_field::{BasedVectorSpace, ExtensionField, PrimeCharacteristicRing, PrimeField64};
 use p3_matrix::Matrix;
@@ -35,19 +43,6 @@ pub fn alu_row_relation<BF: PrimeField64, EF: ExtensionField<BF>>(kind: &str, a:
     }
 }
 
-pub struct AluLayout {
-    pub lanes: usize,
-    pub active_ops: usize,
-}
-
-pub fn alu_layout(width: usize, d: usize, horner_k: usize, info: &KeyInfo) -> AluLayout {
-    let num_int = (horner_k - 1) / 2;
-    let extra = (num_int + 2 * (horner_k - 1) + 1) * d;
-    let lanes = (width - extra) / (4 * d);
-    let active_ops = info.primitive_cols[2].chunks_exact(13).filter(|r| r[0] != 0).count();
-    AluLayout { lanes, active_ops }
-}
-
 pub fn kind_of(r: &[u64]) -> &'static str {
     if r[2] == 1 {
         "bool"
@@ -62,101 +57,325 @@ pub fn kind_of(r: &[u64]) -> &'static str {
     }
 }
 
-/// None = the forged matrices still satisfy every operation relation, carry the circuit's
-/// constants and agree on every shared slot; Some(reason) otherwise.
-pub fn eval_tables<BF: PrimeField64, EF: ExtensionField<BF>>(
+/// Column geometry of the ALU main and preprocessed matrices (from the documented layout).
+#[derive(Clone, Copy, Debug)]
+pub struct AluGeom {
+    pub d: usize,
+    pub lanes: usize,
+    pub k_max: usize,
+    pub num_int: usize,
+    pub extra_main: usize,
+    pub extra_prep: usize,
+}
+
+impl AluGeom {
+    pub fn new(main_w: usize, prep_w: usize, d: usize, k_max: usize) -> Option<Self> {
+        let num_int = (k_max - 1) / 2;
+        let extra_m = (num_int + 2 * (k_max - 1) + 1) * d;
+        let extra_p = 7 * (k_max - 1);
+        if main_w < extra_m || prep_w < extra_p || (main_w - extra_m) % (4 * d) != 0 || (prep_w - extra_p) % 13 != 0 {
+            return None;
+        }
+        let lanes = (main_w - extra_m) / (4 * d);
+        if lanes == 0 || lanes != (prep_w - extra_p) / 13 {
+            return None;
+        }
+        Some(Self { d, lanes, k_max, num_int, extra_main: lanes * 4 * d, extra_prep: lanes * 13 })
+    }
+    pub fn operand(&self, lane: usize, o: usize) -> usize {
+        lane * 4 * self.d + o * self.d
+    }
+    pub fn int(&self, j: usize) -> usize {
+        self.extra_main + j * self.d
+    }
+    /// (a_t, c_t) columns of packed step t (1 <= t < k_max)
+    pub fn step_a(&self, t: usize) -> usize {
+        self.extra_main + self.num_int * self.d + 2 * (t - 1) * self.d
+    }
+    pub fn step_c(&self, t: usize) -> usize {
+        self.step_a(t) + self.d
+    }
+    pub fn b_sq(&self) -> usize {
+        self.extra_main + (self.num_int + 2 * (self.k_max - 1)) * self.d
+    }
+    pub fn sel_k(&self, k: usize) -> usize {
+        self.extra_prep + (k - 2)
+    }
+    /// preprocessed columns of packed step t: [a_idx, c_idx, a_reader, c_reader, mult_a, mult_c]
+    pub fn step_prep(&self, t: usize) -> usize {
+        self.extra_prep + (self.k_max - 1) + 6 * (t - 1)
+    }
+    pub fn col_class(&self, col: usize) -> String {
+        if col < self.extra_main {
+            ["a", "b", "c", "out"][(col % (4 * self.d)) / self.d].to_string()
+        } else if col < self.step_a(1) {
+            "horner_int".to_string()
+        } else if col < self.b_sq() {
+            if ((col - self.step_a(1)) / self.d) % 2 == 0 { "horner_a_t".to_string() } else { "horner_c_t".to_string() }
+        } else {
+            "horner_b_sq".to_string()
+        }
+    }
+}
+
+/// One bus participant: a D-cell group of some table matrix tied to a witness slot.
+#[derive(Clone, Debug)]
+pub struct BusCell {
+    pub table: usize,
+    pub row: usize,
+    pub col: usize,
+    pub name: &'static str,
+}
+
+/// One Horner row on lane 0: arity (1 = single step) and whether the row above is not a Horner row.
+#[derive(Clone, Debug)]
+pub struct HRow {
+    pub row: usize,
+    pub k: usize,
+    pub chain_start: bool,
+}
+
+#[derive(Clone, Debug)]
+pub struct AluOpAt {
+    pub row: usize,
+    pub lane: usize,
+    pub kind: &'static str,
+}
+
+pub struct Decoded {
+    pub geom: AluGeom,
+    pub const_rows: usize,
+    pub public_lanes: usize,
+    pub bus: BTreeMap<u64, Vec<BusCell>>,
+    pub ops: Vec<AluOpAt>,
+    pub hrows: Vec<HRow>,
+    pub alu_rows_active: usize,
+}
+
+fn u(x: impl PrimeField64) -> u64 {
+    x.as_canonical_u64()
+}
+
+/// Decode the layout (no values): which cells are which operand of which op, who is on the bus.
+pub fn decode<BF: PrimeField64>(info: &KeyInfo, alu_prep: &RowMajorMatrix<BF>, mats: &[RowMajorMatrix<BF>], d: usize, k_max: usize) -> Result<Decoded, String> {
+    let geom = AluGeom::new(mats[2].width(), alu_prep.width(), d, k_max).ok_or_else(|| format!("ALU widths {}x{} do not fit the documented layout for K={k_max}", mats[2].width(), alu_prep.width()))?;
+    let mut bus: BTreeMap<u64, Vec<BusCell>> = BTreeMap::new();
+    let dd = d as u64;
+    let const_rows = info.primitive_cols[0].len() / 2;
+    for (i, ch) in info.primitive_cols[0].chunks_exact(2).enumerate() {
+        if ch[0] != 0 {
+            bus.entry(ch[1] / dd).or_default().push(BusCell { table: 0, row: i, col: 0, name: "const" });
+        }
+    }
+    let public_lanes = (mats[1].width() / d).max(1);
+    for (i, ch) in info.primitive_cols[1].chunks_exact(2).enumerate() {
+        if ch[0] != 0 {
+            bus.entry(ch[1] / dd).or_default().push(BusCell { table: 1, row: i / public_lanes, col: (i % public_lanes) * d, name: "public" });
+        }
+    }
+    let mut ops = Vec::new();
+    let mut hrows = Vec::new();
+    let mut last_active = 0usize;
+    let h = alu_prep.height().min(mats[2].height());
+    let mut prev_lane0_horner = false;
+    for r in 0..h {
+        let pr: Vec<u64> = alu_prep.row_slice(r).ok_or("prep row")?.iter().map(|x| u(*x)).collect();
+        let mut lane0_horner = false;
+        for lane in 0..geom.lanes {
+            let p = &pr[lane * 13..lane * 13 + 13];
+            if p[0] == 0 {
+                continue;
+            }
+            last_active = r + 1;
+            let kind = kind_of(p);
+            ops.push(AluOpAt { row: r, lane, kind });
+            let order = BF::ORDER_U64;
+            let mulf = |a: u64, b: u64| -> u64 { ((a as u128 * b as u128) % order as u128) as u64 };
+            if mulf(p[0], p[11]) != 0 {
+                bus.entry(p[5] / dd).or_default().push(BusCell { table: 2, row: r, col: geom.operand(lane, 0), name: "alu.a" });
+            }
+            if p[9] != 0 {
+                bus.entry(p[6] / dd).or_default().push(BusCell { table: 2, row: r, col: geom.operand(lane, 1), name: "alu.b" });
+            }
+            if mulf(p[0], p[12]) != 0 {
+                bus.entry(p[7] / dd).or_default().push(BusCell { table: 2, row: r, col: geom.operand(lane, 2), name: "alu.c" });
+            }
+            if p[10] != 0 {
+                bus.entry(p[8] / dd).or_default().push(BusCell { table: 2, row: r, col: geom.operand(lane, 3), name: "alu.out" });
+            }
+            if kind == "horner" {
+                if lane != 0 {
+                    return Err(format!("Horner op on lane {lane} of row {r}"));
+                }
+                lane0_horner = true;
+                let mut k = 1usize;
+                for kk in 2..=k_max {
+                    if pr[geom.sel_k(kk)] != 0 {
+                        k = kk;
+                    }
+                }
+                for t in 1..k {
+                    let sp = &pr[geom.step_prep(t)..geom.step_prep(t) + 6];
+                    if sp[4] != 0 {
+                        bus.entry(sp[0] / dd).or_default().push(BusCell { table: 2, row: r, col: geom.step_a(t), name: "alu.a_t" });
+                    }
+                    if sp[5] != 0 {
+                        bus.entry(sp[1] / dd).or_default().push(BusCell { table: 2, row: r, col: geom.step_c(t), name: "alu.c_t" });
+                    }
+                }
+                hrows.push(HRow { row: r, k, chain_start: !prev_lane0_horner });
+            }
+        }
+        prev_lane0_horner = lane0_horner;
+    }
+    Ok(Decoded { geom, const_rows, public_lanes, bus, ops, hrows, alu_rows_active: last_active })
+}
+
+#[derive(Clone, Copy, Debug)]
+pub struct Opts {
+    /// BoolCheck rows must have out == a (true for the end-to-end oracle; the constraint-level
+    /// oracle leaves that tie to the bus)
+    pub bool_out_tied: bool,
+    /// check bus agreement
+    pub bus: bool,
+    /// check that Const rows carry the circuit's constants
+    pub consts: bool,
+    /// Horner accumulator of every step = lane-0 `out` of the row above (the AIR's row relation),
+    /// instead of the circuit op's accumulator slot (the statement)
+    pub acc_from_prev_row: bool,
+}
+
+pub const E2E: Opts = Opts { bool_out_tied: true, bus: true, consts: true, acc_from_prev_row: false };
+pub const ROW_RELATION: Opts = Opts { bool_out_tied: false, bus: false, consts: false, acc_from_prev_row: true };
+
+fn cell<BF: PrimeField64, EF: ExtensionField<BF>>(mats: &[RowMajorMatrix<BF>], t: usize, row: usize, col: usize, d: usize) -> Option<EF> {
+    let m = mats.get(t)?;
+    let w = m.width();
+    let s = row * w + col;
+    m.values.get(s..s + d).map(ext::<BF, EF>)
+}
+
+/// None = the matrices satisfy every operation relation, carry the circuit's constants and agree on
+/// every shared slot; Some(reason) otherwise.
+pub fn judge<BF: PrimeField64, EF: ExtensionField<BF>>(
     circuit: &Circuit<EF>,
     info: &KeyInfo,
+    alu_prep: &RowMajorMatrix<BF>,
     mats: &[RowMajorMatrix<BF>],
-    horner_k: usize,
-    bool_out_tied: bool,
+    k_max: usize,
+    o: Opts,
 ) -> Option<String> {
     let d = <EF as BasedVectorSpace<BF>>::DIMENSION;
-    let order = BF::ORDER_U64;
-    let mulf = |a: u64, b: u64| -> u64 { ((a as u128 * b as u128) % order as u128) as u64 };
-    let mut bus: BTreeMap<u64, Vec<(EF, &'static str)>> = BTreeMap::new();
-    // ---- Const
-    let consts: Vec<EF> = circuit
-        .ops
-        .iter()
-        .filter_map(|op| if let Op::Const { val, .. } = op { Some(*val) } else { None })
-        .collect();
-    let cm = &mats[0];
-    for (i, ch) in info.primitive_cols[0].chunks_exact(2).enumerate() {
-        let row = cm.row_slice(i)?;
-        let v: EF = ext::<BF, EF>(&row[..d]);
-        if i < consts.len() && v != consts[i] {
-            return Some(format!("Const row {i} does not carry the circuit's constant"));
-        }
-        if ch[0] != 0 {
-            bus.entry(ch[1] / d as u64).or_default().push((v, "const"));
-        }
-    }
-    // ---- Public
-    let pm = &mats[1];
-    let plw = d;
-    let planes = (pm.width() / plw).max(1);
-    for (i, ch) in info.primitive_cols[1].chunks_exact(2).enumerate() {
-        let (r, l) = (i / planes, i % planes);
-        let row = pm.row_slice(r)?;
-        let v: EF = ext::<BF, EF>(&row[l * plw..l * plw + d]);
-        if ch[0] != 0 {
-            bus.entry(ch[1] / d as u64).or_default().push((v, "public"));
+    let dec = match decode::<BF>(info, alu_prep, mats, d, k_max) {
+        Ok(x) => x,
+        Err(e) => return Some(format!("decode: {e}")),
+    };
+    let g = dec.geom;
+    // ---- Const values
+    let mut const_slot: BTreeMap<u64, EF> = BTreeMap::new();
+    let mut ci = 0usize;
+    for op in &circuit.ops {
+        if let Op::Const { out, val } = op {
+            const_slot.insert(out.0 as u64, *val);
+            if o.consts {
+                let v: EF = cell::<BF, EF>(mats, 0, ci, 0, d)?;
+                if v != *val {
+                    return Some(format!("Const row {ci} does not carry the circuit's constant"));
+                }
+            }
+            ci += 1;
         }
     }
-    // ---- ALU
+    // ---- bus agreement
+    let mut slot_val: BTreeMap<u64, EF> = BTreeMap::new();
+    for (slot, cells) in &dec.bus {
+        let vs: Vec<EF> = cells.iter().filter_map(|c| cell::<BF, EF>(mats, c.table, c.row, c.col, d)).collect();
+        if o.bus && vs.iter().any(|v| *v != vs[0]) {
+            let names: Vec<&str> = cells.iter().map(|x| x.name).collect();
+            return Some(format!("slot {slot}: bus participants disagree on its value ({names:?})"));
+        }
+        if let Some(v) = vs.first() {
+            slot_val.insert(*slot, *v);
+        }
+    }
+    // ---- ALU row relations (non-Horner)
     let am = &mats[2];
-    let lay = alu_layout(am.width(), d, horner_k, info);
-    let mut opi = 0usize;
-    for r13 in info.primitive_cols[2].chunks_exact(13) {
-        if r13[0] == 0 {
-            opi += 1;
+    for op in &dec.ops {
+        if op.kind == "horner" {
             continue;
         }
-        let (row, lane) = (opi / lay.lanes, opi % lay.lanes);
-        let rs = am.row_slice(row)?;
-        let base = lane * 4 * d;
-        let a: EF = ext::<BF, EF>(&rs[base..base + d]);
-        let b: EF = ext::<BF, EF>(&rs[base + d..base + 2 * d]);
-        let c: EF = ext::<BF, EF>(&rs[base + 2 * d..base + 3 * d]);
-        let out: EF = ext::<BF, EF>(&rs[base + 3 * d..base + 4 * d]);
-        let kind = kind_of(r13);
-        if kind == "horner" {
-            return None; // not decoded: callers must not use Horner circuits with this oracle
+        let a: EF = cell::<BF, EF>(mats, 2, op.row, g.operand(op.lane, 0), d)?;
+        let b: EF = cell::<BF, EF>(mats, 2, op.row, g.operand(op.lane, 1), d)?;
+        let c: EF = cell::<BF, EF>(mats, 2, op.row, g.operand(op.lane, 2), d)?;
+        let out: EF = cell::<BF, EF>(mats, 2, op.row, g.operand(op.lane, 3), d)?;
+        if let Some(why) = alu_row_relation::<BF, EF>(op.kind, a, b, c, out, o.bool_out_tied) {
+            return Some(format!("ALU row {} lane {} ({}): {why}", op.row, op.lane, op.kind));
         }
-        if let Some(why) = alu_row_relation::<BF, EF>(kind, a, b, c, out, bool_out_tied) {
-            return Some(format!("ALU op {opi} ({kind}): {why}"));
-        }
-        let (a_idx, b_idx, c_idx, out_idx) = (r13[5], r13[6], r13[7], r13[8]);
-        if mulf(r13[0], r13[11]) != 0 {
-            bus.entry(a_idx / d as u64).or_default().push((a, "alu.a"));
-        }
-        if r13[9] != 0 {
-            bus.entry(b_idx / d as u64).or_default().push((b, "alu.b"));
-        }
-        if mulf(r13[0], r13[12]) != 0 {
-            bus.entry(c_idx / d as u64).or_default().push((c, "alu.c"));
-        }
-        if r13[10] != 0 {
-            bus.entry(out_idx / d as u64).or_default().push((out, "alu.out"));
-        }
-        opi += 1;
     }
-    for (slot, vs) in &bus {
-        if vs.iter().any(|(v, _)| *v != vs[0].0) {
-            let names: Vec<&str> = vs.iter().map(|x| x.1).collect();
-            return Some(format!("slot {slot}: bus participants disagree on its value ({names:?})"));
+    // ---- Horner steps, mapped to the circuit's HornerAcc ops in order
+    let hops: Vec<(u64, u64, u64, u64, u64)> = circuit
+        .ops
+        .iter()
+        .filter_map(|op| match op {
+            Op::Alu { kind: AluOpKind::HornerAcc, a, b, c, out, intermediate_out } => Some((intermediate_out.map(|x| x.0 as u64).unwrap_or(u64::MAX), a.0 as u64, b.0 as u64, c.map(|x| x.0 as u64).unwrap_or(u64::MAX), out.0 as u64)),
+            _ => None,
+        })
+        .collect();
+    let total_steps: usize = dec.hrows.iter().map(|h| h.k).sum();
+    if !o.acc_from_prev_row && total_steps != hops.len() {
+        return Some(format!("decode: {total_steps} Horner steps in the table, {} HornerAcc ops in the circuit", hops.len()));
+    }
+    let mut hi = 0usize;
+    let mut carry: Option<(u64, EF)> = None; // (out slot of the previous Horner op, its computed value)
+    let h = am.height();
+    for hr in &dec.hrows {
+        let pr: Vec<u64> = alu_prep.row_slice(hr.row)?.iter().map(|x| u(*x)).collect();
+        let b: EF = cell::<BF, EF>(mats, 2, hr.row, g.operand(0, 1), d)?;
+        let out_cell: EF = cell::<BF, EF>(mats, 2, hr.row, g.operand(0, 3), d)?;
+        let prev_out: EF = cell::<BF, EF>(mats, 2, (hr.row + h - 1) % h, g.operand(0, 3), d)?;
+        let mut acc: Option<EF> = if o.acc_from_prev_row { Some(prev_out) } else { None };
+        for t in 0..hr.k {
+            let (a, c): (EF, EF) = if t == 0 {
+                (cell::<BF, EF>(mats, 2, hr.row, g.operand(0, 0), d)?, cell::<BF, EF>(mats, 2, hr.row, g.operand(0, 2), d)?)
+            } else {
+                (cell::<BF, EF>(mats, 2, hr.row, g.step_a(t), d)?, cell::<BF, EF>(mats, 2, hr.row, g.step_c(t), d)?)
+            };
+            if !o.acc_from_prev_row {
+                let (acc_s, a_s, b_s, c_s, out_s) = hops[hi];
+                let (a_idx, c_idx) = if t == 0 { (pr[5], pr[7]) } else { (pr[g.step_prep(t)], pr[g.step_prep(t) + 1]) };
+                let dd = d as u64;
+                if a_idx != a_s * dd || c_idx != c_s * dd || pr[6] != b_s * dd || (t + 1 == hr.k && pr[8] != out_s * dd) {
+                    return Some(format!("decode: Horner step {hi} (row {} step {t}) does not match the circuit's op", hr.row));
+                }
+                // the statement's accumulator: the op's acc slot
+                acc = if let Some(v) = const_slot.get(&acc_s) {
+                    Some(*v)
+                } else if let Some(v) = slot_val.get(&acc_s) {
+                    Some(*v)
+                } else if let Some((s, v)) = carry {
+                    (s == acc_s).then_some(v)
+                } else {
+                    None
+                };
+                let _ = out_s;
+            }
+            let next = acc.map(|x| x * b + c - a);
+            if !o.acc_from_prev_row {
+                carry = next.map(|v| (hops[hi].4, v));
+                hi += 1;
+            }
+            acc = next;
+            if o.acc_from_prev_row && t + 1 < hr.k {
+                continue;
+            }
+        }
+        match acc {
+            Some(v) if v != out_cell => {
+                return Some(format!("ALU row {} (horner, arity {}): folded accumulator != out", hr.row, hr.k));
+            }
+            None => return Some(format!("decode: accumulator of Horner row {} is not determined by the tables", hr.row)),
+            _ => {}
         }
     }
     None
-}
-
-/// Column class of an ALU cell (for finding keys): which operand / extra column it belongs to.
-pub fn alu_col_class(col: usize, d: usize, lanes: usize) -> String {
-    if col < lanes * 4 * d {
-        let within = col % (4 * d);
-        ["a", "b", "c", "out"][within / d].to_string()
-    } else {
-        "extra".to_string()
-    }
 }
